@@ -203,25 +203,3 @@ Example rt_import_request_example :
    do d <- dec_ty kmip_schema kmip_ops kmip_attrs kmip_objs bin_fmt 200 (Some (1, 4)) (TNamed "payloads.ImportRequestPayload") 4325497 c ;;
    Ok (value_eqb (fst (fst d)) ex_import_request && match snd (fst d) with ([], false) => true | _ => false end)) = Ok true.
 Proof. split; [eexists; vm_compute; reflexivity | vm_compute; reflexivity]. Qed.
-
-(* With every hand-written codec dispatched in [conf_custom_of] (checked against the full
-   dispatcher):
-
-Example rt_import_request_example_full :
-  exists sc, conf_ty kmip_schema kmip_ops kmip_attrs kmip_objs 40 (Some (1, 4))
-               (TNamed "payloads.ImportRequestPayload") 4325497 ex_import_request = Some sc.
-Proof. eexists; vm_compute; reflexivity. Qed.
-
-Definition ex_symmetric_key : value :=
-  VIface (TPtr (TNamed "kmip.SymmetricKey")) (VPtr (VStruct "kmip.SymmetricKey" [VStruct "kmip.KeyBlock"
-    [VInt 7; VInt 0; VPtr (VStruct "kmip.KeyValue" [VNil; VPtr (VStruct "kmip.PlainKeyValue"
-       [VStruct "kmip.KeyMaterial" [VNil; VPtr (VStruct "kmip.TransparentSymmetricKey" [VStr [1; 2; 3; 4]]); VNil; VNil; VNil; VNil; VNil; VNil];
-        VList [ex_attr_object_group]])]); VInt 3; VInt 32; VNil]])).
-Definition ex_import_request_key : value :=
-  VStruct "payloads.ImportRequestPayload"
-    [VStr [105; 100; 45; 49]; VBool true; VInt 2; VList [ex_attr_object_group; ex_attr_object_type 2]; ex_symmetric_key].
-Example rt_import_request_example_key :
-  exists sc, conf_ty kmip_schema kmip_ops kmip_attrs kmip_objs 40 (Some (1, 4))
-               (TNamed "payloads.ImportRequestPayload") 4325497 ex_import_request_key = Some sc.
-Proof. eexists; vm_compute; reflexivity. Qed.
-*)
